@@ -13,7 +13,7 @@ from vf.explore import core
 from vf.models import codec
 from vf.vworld import peer
 
-PAYLOADS = ['m0', {'t': 'm1'}, b'm2', 'm3']
+PAYLOADS = ['m0', {'t': 'm1'}, b'm2', 'm3'] + ['m%d' % i for i in range(4, 48)]
 
 
 def tag_of(data):
@@ -25,7 +25,8 @@ def tag_of(data):
 
 
 VARIANTS = ['upgrade_ok', 'upgrade_fail_frame', 'upgrade_fail_close', 'polling_only', 'ws_only',
-            'two_sessions', 'close_during', 'upgrade_no_pending_poll']
+            'two_sessions', 'close_during', 'upgrade_no_pending_poll', 'backlog_polling', 'backlog_ws',
+            'backlog_upgrade']
 
 
 class Delivery(core.Scenario):
@@ -41,7 +42,7 @@ class Delivery(core.Scenario):
         self.fail_step = None
         self.closed_by_client = {}
         A = self.A = None
-        if variant == 'ws_only':
+        if variant in ('ws_only', 'backlog_ws'):
             h = peer.ws_open(w)
             A = [e[1] for e in w.events if e[0] == 'connect'][-1]
             self.ws[A] = h
@@ -94,7 +95,21 @@ class Delivery(core.Scenario):
             return core.Action('post_close', fire)
 
         app = [send(A, i) for i in range(k)]
-        if variant == 'upgrade_ok':
+        if variant.startswith('backlog'):
+            # k messages are queued back to back by one application task before the client reads
+            def burst(sc):
+                for i in range(k):
+                    sc.sends.append((tag_of(PAYLOADS[i]), A, None, sc.world.nstep))
+                c = sc.world.call_seq('send', [(A, PAYLOADS[i]) for i in range(k)])
+                sc.sends[:] = [(t, s_, c, st) for (t, s_, _, st) in sc.sends]
+            app = [core.Action('burst%d' % k, burst)]
+        if variant == 'backlog_polling':
+            client = [poll(A, 'poll-after')]
+        elif variant == 'backlog_ws':
+            client = []
+        elif variant == 'backlog_upgrade':
+            client = [ws_connect(A), frame(A, '2probe', 'probe'), frame(A, '5', 'upgrade', need_pong=True)]
+        elif variant == 'upgrade_ok':
             client = [poll(A), ws_connect(A), frame(A, '2probe', 'probe'), poll(A, 'late_poll'),
                       frame(A, '5', 'upgrade', need_pong=True)]
         elif variant == 'upgrade_no_pending_poll':
@@ -125,7 +140,7 @@ class Delivery(core.Scenario):
     def drain(self, sid):
         w = self.world
         w.run()
-        for _ in range(6):
+        for _ in range(12):
             if sid not in w.live_sids():
                 return
             if w.transport(sid) == 'websocket':
@@ -182,19 +197,20 @@ class Delivery(core.Scenario):
                 for j in range(i + 1, len(mine)):
                     ti, ci, si = mine[i]
                     tj, cj, sj = mine[j]
-                    if ci.done and ti in pos and tj in pos and pos[ti] > pos[tj]:
+                    same_task = ci is cj
+                    if (ci.done or same_task) and ti in pos and tj in pos and pos[ti] > pos[tj]:
                         # was call i complete before call j was issued?  and did the carrier of the later
                         # message complete before the carrier of the earlier one even started (overlapping
                         # responses on different connections have no defined arrival order)?
                         oi, oj = obs[pos[ti]], obs[pos[tj]]
                         same_carrier = oi[3] == oj[3] == 'websocket' or (oi[0], oi[4]) == (oj[0], oj[4])
-                        if getattr(ci, 'step_done', None) is not None and ci.step_done <= sj and \
+                        if (same_task or (getattr(ci, 'step_done', None) is not None and ci.step_done <= sj)) and \
                                 (same_carrier or oj[0] < oi[4]):
                             self.flag('reordered', 'client %s saw %r, sent %r' % (sid[-4:], tags, [m[0] for m in mine]), trigger=variant)
             # completeness
             closed_first = sid in self.closed_by_client or sid not in w.live_sids()
             if not closed_first:
-                missing = [t for (t, c, st) in mine if c.done and not c.exc and t not in tags]
+                missing = [t for (t, c, st) in mine if c is not None and c.done and not c.exc and t not in tags]
                 if missing:
                     self.flag('message_lost', 'client %s never received %r (saw %r; transport %s)' %
                               (sid[-4:], missing, obs, w.transport(sid)), trigger=variant)
@@ -230,6 +246,8 @@ def param_list(ctx):
     for impl in ('sync', 'async'):
         for v in VARIANTS:
             ks = (2, 3) if v in ('upgrade_ok', 'upgrade_fail_frame') else (2,)
+            if v.startswith('backlog'):
+                ks = (17, 20, 40)
             if not ctx.quick and v in ('polling_only', 'upgrade_fail_close', 'upgrade_no_pending_poll'):
                 ks = (2, 3)
             for k in ks:
